@@ -44,6 +44,9 @@ M = [
  ("C17", "lammps-streams", "_lammps_writeTABLE.py", "    _writeSinglePotential(potential, minr, maxr, gridPoints, sbuild)\n    potlines.append(sbuild.getvalue())", "    _writeSinglePotential(potential, minr, maxr, gridPoints, out)"),
  ("C17", "dlpoly-header-first", "_dlpoly_writeTABLE.py", "_writeTableHeader(meshResolution, cutoff, gridPoints, outputbuilder)", "_writeTableHeader(meshResolution, cutoff, gridPoints, out)"),
  ("C17", "revert-gulp-buffer", "pair_tabulation.py", "      self._write_pot(pot, sbuild)", "      self._write_pot(pot, fp)"),
+ ("C13", "cli-exclude-as-include", "tools/potable/__init__.py", "      cp = FilteredConfigParser(cp, exclude = species)", "      cp = FilteredConfigParser(cp, include = species)"),
+ ("C13", "cli-exclude-flag-false", "tools/potable/__init__.py", "    species_list = args.exclude_species\n    exclude_flag = True", "    species_list = args.exclude_species\n    exclude_flag = False"),
+ ("C13", "revert-self-attrs", "config/_filtered_config_parser.py", "      self._self_species_list = include\n      self._self_exclude_flag = False", "      self._species_list = include\n      self._self_species_list = include\n      self.__wrapped__._shared = include\n      self._self_exclude_flag = False"),
  ("C03", "setfl-nr-minus-1", "eam_tabulation.py", None, None),
 ]
 def main():
